@@ -115,7 +115,10 @@ func (t *tversion) handle(cs *connState) message {
 
 // handle implements handler.handle.
 func (t *tflush) handle(cs *connState) message {
-	cs.WaitTag(t.OldTag)
+	// t.wait was captured when the flush was received (see handleRequest).
+	if t.wait != nil {
+		<-t.wait
+	}
 	return &rflush{}
 }
 
